@@ -836,6 +836,8 @@ def run_c13(ctx):
             k = LOBE_KEY
         elif micro_known(m, conf):
             k = MICRO_KEY
+        elif conf and conf.get('marginal_only') and m['mode'] == 'translate' and (m.get('op') or '').startswith('InflatePaths64') and max(abs(x) for x in m['v']) >= 2 ** 50:
+            k = 'offset-float-spacing-beyond-2^50'   # offset vertices are float64 sums of absolute coordinates: spacing 0.25..1 unit there
         elif conf and conf.get('marginal_only') and m['mode'] == 'translate':
             k = BAND_KEY
         elif conf and bits >= 32:
@@ -1204,7 +1206,9 @@ def run_c04(ctx):
             for nd in m['nodes'] or []:
                 a2 = shoelace2([nd['poly']])
                 if (a2 < 0) != nd['is_hole']:
-                    viol.append({'key': 'sub-band-polygon-misparented' if abs(a2) <= 25 else key, 'kind': 'hole-orientation', 'text': 'node %s reports IsHole()=%s but its exact doubled area is %d' % (nd['poly'][:4], nd['is_hole'], a2),
+                    # "smaller than the rounding band": tiny, or so thin that no point of it is more than 2 units from its own boundary
+                    sub_band = abs(a2) <= 25 or not fw.confirm_region([[nd['poly']]], geom.closed_edges([nd['poly']]), 4, (lambda w: w[0] == 0), None)
+                    viol.append({'key': 'sub-band-polygon-misparented' if sub_band else key, 'kind': 'hole-orientation', 'text': 'node %s reports IsHole()=%s but its exact doubled area is %d' % (nd['poly'][:4], nd['is_hole'], a2),
                                  'detail': {'corpus_entry': entry, 'nodes': m['nodes']}})
                     break
             continue
@@ -1477,7 +1481,7 @@ REGION_TRUST = [
 PROPS = {
     'C01': {
         'run': run_c01, 'level': 'proof', 'trust': REGION_TRUST,
-        'rule': 'structured random subject/clip pairs (8 polygon kinds, 10 grids from 3 to 2^20, shifts up to 2^29, 4 clip types x 4 fill rules, nil/empty clip, 3 API variants) plus the committed corpus (minimised failures and known-finding witnesses, run first); distinct = distinct (subject, clip, clip type, fill rule); non-trivial = the solution is non-empty',
+        'rule': 'structured random subject/clip pairs (8 polygon kinds, 10 grids from 3 to 2^20, shifts up to 2^29, 4 clip types x 4 fill rules, nil/empty clip, 3 API variants; a tenth of the cases dense many-vertex polygons on a small grid, a tenth tie-heavy lattice polygons (2-6 polygons on a 4..30 lattice times a scale 10..100: shared vertices, edges ending in common vertices, crossings on scanlines, exactly collinear tops), a tenth with redundant collinear vertices on the edges) plus the committed corpus (minimised failures and known-finding witnesses, run first); distinct = distinct (subject, clip, clip type, fill rule); non-trivial = the solution is non-empty',
         'assumes': ['the reading of "inside the solution" as odd winding of the solution (orientation is C02\'s business)'],
     },
     'C19': {
@@ -1488,12 +1492,12 @@ PROPS = {
     'C17': {
         'run': run_c17, 'level': 'proof', 'trust': REGION_TRUST + ['determinism: every call is made twice on equal inputs and compared bytewise by the harness (observed, not proved, for the sweep)',
                                                                       'K3: the three sort orderings of the sweep (horzSegSort, the processIntersectList and reset closures) are translated from /repo/clipper_base.go on every run by harness/comparators.go (a go/ast expression translator: if/return/||/&&/comparisons/nil tests/cmp.Compare over field paths; compared objects abstract) into Gen/Comparators_gen.v; the translator is trusted, an untranslatable comparator breaks the theorems'],
-        'rule': 'C01-style random inputs; per base input 5-6 respellings (path permutation, start rotation, vertex/closing-vertex duplication, reversal under the matching fill-rule change, subject/clip exchange, one of the 7 non-trivial lattice symmetries); distinct = distinct (input, variant)',
+        'rule': 'C01-style random inputs (a fifth tie-heavy lattice polygons, a fifth with redundant collinear vertices); per base input 5-6 respellings (path permutation, start rotation, vertex/closing-vertex duplication, reversal under the matching fill-rule change, subject/clip exchange, one of the 7 non-trivial lattice symmetries); distinct = distinct (input, variant)',
         'assumes': ['orientation-reversing lattice symmetries exchange Positive and Negative (winding numbers negate under reflection)'],
     },
     'C06': {
         'run': run_c06, 'level': 'proof', 'trust': [t.replace('the Vatti sweep itself (clipper_base.go, engine.go)', 'the rectangle clipper state machine (rect_clip.go)') for t in REGION_TRUST] + ['vertex-in-rectangle, inside-unchanged, outside-vanishes and the driver (joint result = concatenation of per-path results) are decided directly by the harness on every case'],
-        'rule': 'corpus/c06.jsonl first; ALL 25^3 ordered triangles (thorough: also all 25^4 quadrilaterals) on the 5x5 lattice {outside, low side, middle, high side, outside} of a rectangle, whose diagonals pass through the corners; random lattice and boundary families (vertices on corners/sides, edges exactly through corners); random closed path sets (8 polygon kinds, 9 grids) x rectangles whose sides often pass through path vertices, empty and swallowing rectangles; distinct = distinct (rect, paths); non-trivial = non-empty output',
+        'rule': 'corpus/c06.jsonl first; grazer family (long shallow or steep edges passing 1-6 units outside a rectangle corner and running far beyond it on both sides, joined to interior points, side-region points and further grazers); ALL 25^3 ordered triangles (thorough: also all 25^4 quadrilaterals) on the 5x5 lattice {outside, low side, middle, high side, outside} of a rectangle, whose diagonals pass through the corners; random lattice and boundary families (vertices on corners/sides, edges exactly through corners); random closed path sets (8 polygon kinds, 9 grids) x rectangles whose sides often pass through path vertices, empty and swallowing rectangles; distinct = distinct (rect, paths); non-trivial = non-empty output',
         'assumes': [],
     },
     'C15': {
@@ -1516,7 +1520,7 @@ PROPS = {
                   'the float64 result of Area64 is compared through its exact value (2*Area64 as an integer)',
                   'lib/propdefs.py: exact-integer statement of each clause (shoelace sum, extremes, crossing parity, cross product) evaluated on the implementation outputs',
                   'PointInPolygon: the model is PROVED equal to the exact even-odd specification for every polygon of >= 3 vertices not contained in the horizontal line through the query point, coordinates within 2^29 (Model/PipProofs.v, no axioms); what remains trusted is model = code, compared exactly on every generated pair'],
-        'rule': 'int64 values around 0, +-1, 2^26, 2^29, 2^53, arbitrary 64-bit patterns for the arithmetic kernels; point triples biased to exact collinearity and unit differences; paths of all generator kinds plus the 2^30 square wound 1-5 times; point/polygon pairs with the point on vertices, edges and horizontals through vertices, on grids 2..10 and at 2^26/2^29, triangles spanning the whole domain with query points a few units off their long edges; CrossProduct on random, nearly collinear far-apart (products beyond 2^54, exact value below 100) and wrapping triples; non-trivial = collinear triples, paths >= 3 points, all point-in-polygon cases',
+        'rule': 'int64 values around 0, +-1, 2^26, 2^29, 2^53, arbitrary 64-bit patterns for the arithmetic kernels; point triples biased to exact collinearity and unit differences, a quarter of them nearly collinear far apart (every factor below 2^31, both products beyond 2^54, exact difference a few units); paths of all generator kinds plus the 2^30 square wound 1-5 times; point/polygon pairs with the point on vertices, edges and horizontals through vertices, on grids 2..10 and at 2^26/2^29, triangles spanning the whole domain with query points a few units off their long edges; CrossProduct on random, nearly collinear far-apart (products beyond 2^54, exact value below 100) and wrapping triples; non-trivial = collinear triples, paths >= 3 points, all point-in-polygon cases',
         'assumes': [],
     },
     'C03': {
@@ -1536,7 +1540,7 @@ PROPS = {
         'trust': ['Model/Simplify.v: parametric Gallina model of the greedy removal loop (theorems for every distance function and comparison); Model/SimplifyF64.v: its float-faithful instance (binary64 = exact rational arithmetic + round-to-nearest-even at 53 bits, normal range only), compared exactly with SimplifyPath64 and SimplifyPathD outputs on every generated input',
                   'gc on amd64 does not fuse multiply-add; NaN/Inf/subnormal distances are outside the model (they need |coords| beyond the generated range)',
                   'lib/propdefs.py simplify_clauses: exact-rational statement of the property on the implementation outputs (2^-40 relative slack on the epsilon comparison so that float rounding is not an alarm)'],
-        'rule': 'trim-style paths, noisy lines, noisy circles, tie-rich zigzags, generic polygons x 12 epsilons + random ones x closed/open; each input also translated by up to 2^28 and scaled by 2^0..2^9 (with epsilon) to compare retained index sets; a third of the cases also through SimplifyPathD on the points/8; non-trivial = at least one vertex removed',
+        'rule': 'noisy lines at extents 2^32..2^38 with epsilon a few times the noise and genuine corners whose exact cross product is a non-zero multiple of 2^64 (1 case in 13); trim-style paths (incl. quadrilaterals with a vertex a few units off the line through far-apart neighbours), noisy lines, noisy circles, tie-rich zigzags, generic polygons x 12 epsilons + random ones x closed/open; each input also translated by up to 2^28 and scaled by 2^0..2^9 (with epsilon) to compare retained index sets; a third of the cases also through SimplifyPathD on the points/8; non-trivial = at least one vertex removed',
         'assumes': [],
     },
     'C18': {
@@ -1576,21 +1580,21 @@ PROPS = {
         'run': run_c04, 'level': 'proof',
         'trust': REGION_TRUST + ['Model/PolyTree.v: node API (Level/IsHole) and the abstract nesting lemma (polygons containing a point form a chain, so a parent is the innermost polygon around its child)',
                                  'same-polygons (as cyclic vertex sequences, each exactly once), Level = parent level + 1, IsHole <=> even level, IsHole <=> negative exact area are decided directly on every tree'],
-        'rule': 'corpus/c04.jsonl first; nested rings to depth 6 (islands in holes in islands, second islands touching their hole), nested-vs-nested, rectangle soups on a coarse lattice, the pinch family (two clip bars meeting along a horizontal line, holes and islands aligned with it), and generic random pairs x clip types x fill rules through BooleanOpPolyTree64 and Clipper64.ExecutePolyTree64 (the float tree is tied to the 64-bit one by C07); pairwise parent/sibling certificates for trees of <= 14 nodes; non-trivial = depth >= 2',
+        'rule': 'corpus/c04.jsonl first; nested rings to depth 6 (islands in holes in islands, second islands touching their hole), nested-vs-nested, rectangle soups on a coarse lattice, the cavities family (an arch glued to a base bar whose cavity is cut into 2-4 holes by pairs of shelves meeting along a horizontal segment, an island in every hole, 4 orientations x 4 scales), the pinch family (two clip bars meeting along a horizontal line, holes and islands aligned with it), and generic random pairs x clip types x fill rules through BooleanOpPolyTree64 and Clipper64.ExecutePolyTree64 (the float tree is tied to the 64-bit one by C07); pairwise parent/sibling certificates for trees of <= 14 nodes; non-trivial = depth >= 2',
         'assumes': [],
     },
     'C05': {
         'run': run_c05, 'level': 'proof', 'trust': [t.replace('the Vatti sweep itself (clipper_base.go, engine.go)', 'the offsetter\'s per-vertex join construction (offset.go: float trigonometry, not modelled) and the final union') for t in REGION_TRUST] + [
                   'the strips and discs handed to the checker (points within |delta|-1 of an edge along its normal, discs of radius |delta|-tol about vertices for round joins) are built by the harness in floating point and rounded to the lattice; their containment in the ideal |delta|-tol neighbourhood is not re-proved',
                   'squared radii (k|delta| + tol)^2 are passed as rational upper bounds chosen by the harness; the checker uses them exactly'],
-        'rule': 'simple polygon sets (1-2 star-shaped islands of 3-10 vertices, holes inside islands with >= 6 vertices listed before or after their island, either global orientation, rings also written with an explicit closing vertex or a repeated vertex; needles with an interior angle below 2.5 degrees) x deltas of both signs from 0.3 to 2.5 diameters x 4 join types x miter limits 1..5 x arc tolerances 0..3, through InflatePaths64 and ClipperOffset with one group per island; per case up to 5 certificates (input kept / result inside input, normal strips and vertex discs, far bound, canonical form, over-shrink premise); non-trivial = |delta| >= 0.5',
+        'rule': 'huge thin quadrilaterals (one side 3.1e9..4.2e9 units: its squared length exceeds 2^63; 4 orientations, slightly slanted) in a ninth of the cases; simple polygon sets (1-2 star-shaped islands of 3-10 vertices, holes inside islands with >= 6 vertices listed before or after their island, either global orientation, rings also written with an explicit closing vertex or a repeated vertex; needles with an interior angle below 2.5 degrees) x deltas of both signs from 0.3 to 2.5 diameters x 4 join types x miter limits 1..5 x arc tolerances 0..3, through InflatePaths64 and ClipperOffset with one group per island; per case up to 5 certificates (input kept / result inside input, normal strips and vertex discs, far bound, canonical form, over-shrink premise); non-trivial = |delta| >= 0.5',
         'assumes': ['PARTIAL: certified with bands of 2 units around the input edges / the result\'s own edges and the radius k|delta|+tol; the join construction itself is not modelled'],
     },
     'C10': {
         'run': run_c10, 'level': 'proof', 'trust': [t.replace('the Vatti sweep itself (clipper_base.go, engine.go)', 'the offsetter\'s per-vertex join construction (offset.go: float trigonometry, not modelled) and the final union') for t in REGION_TRUST] + [
                   'the strips and discs handed to the checker (points within |delta|-1 of an edge along its normal, discs of radius |delta|-tol about vertices for round joins) are built by the harness in floating point and rounded to the lattice; their containment in the ideal |delta|-tol neighbourhood is not re-proved',
                   'squared radii (k|delta| + tol)^2 are passed as rational upper bounds chosen by the harness; the checker uses them exactly'],
-        'rule': 'open polylines of 1-6 points (duplicates, gentle turns), loops whose last point repeats the first, a third of the calls with 1-2 companion polylines in the same call x 4 end types x 4 join types x half-widths 5%-30% of the segment length; per case: canonical form, both normal strips of every segment inside the result, nothing farther than k*delta+tol from the polyline, single points against an inscribed square/disc',
+        'rule': 'open polylines of 1-6 points (duplicates, gentle turns), polylines with one near-vertical segment of 3.1e9..4.2e9 units (an eleventh of the cases; near-horizontal ones are not generated: the cover search of the far-band certificate bisects cells and would need ~35 levels next to the end caps), loops whose last point repeats the first, a third of the calls with 1-2 companion polylines in the same call x 4 end types x 4 join types x half-widths 5%-30% of the segment length; per case: canonical form, both normal strips of every segment inside the result, nothing farther than k*delta+tol from the polyline, single points against an inscribed square/disc',
         'assumes': ['PARTIAL as C05'],
     },
     'C09': {
@@ -1606,7 +1610,7 @@ PROPS = {
     },
     'C02': {
         'run': run_c02, 'level': 'proof', 'trust': REGION_TRUST,
-        'rule': 'outputs of the C01 stream under all four (reverse-solution, preserve-collinear) settings, plus the re-union run; distinct = distinct (input, options); non-trivial = non-empty solution',
+        'rule': 'outputs of the C01 stream (a sixth rectangle soups, a sixth nested mixed rings, a sixth tie-heavy lattice polygons) under all four (reverse-solution, preserve-collinear) settings, plus the re-union run; distinct = distinct (input, options); non-trivial = non-empty solution',
         'assumes': [],
     },
 }
@@ -1619,3 +1623,12 @@ _K3NP = "K3: the tail of intersectEdges that decides whether two crossing non-ho
 _K3RECT = "K3: rect_clip.go:getLocation, headingClockwise, getAdjacentLocation, areOpposites, getEdgesForPt are translated on every run (harness/pure.go) into Gen/RectLeaf_gen.v and proved against their specifications (Model/RectLeafProofs.v); Go's % is read as Z.modulo (operands are non-negative in the stated ranges); the translator is trusted"
 for _pid, _extra in (('C01', [_K3DEC, _K3WC, _K3NP]), ('C19', [_K3DEC, _K3NP]), ('C09', [_K3DEC]), ('C06', [_K3RECT]), ('C11', [_K3RECT])):
     PROPS[_pid]['trust'] = list(PROPS[_pid]['trust']) + _extra
+
+_K3KER = ("K3: the scalar arithmetic kernels (internal_clipper.go triSign, multiplyUInt64, productsAreEqual, isCollinear, CrossProduct, dotProduct64, getSegmentIntersectPt; "
+          "clipper.go PerpendicDistFromLineSqr64/D, the guard / initial state / loop body of Area64, getBounds, GetBounds64; generics.go sqr; core.go NewRect64Invalid) are translated "
+          "from the current source on every run (harness/kernels.go: typed translation, int64 -> wrapping Z operations, uint64 -> Z mod 2^64, float64 -> exact rationals rounded to 53 bits "
+          "after every operation) into Gen/Kernels_gen.v and proved EQUAL to the hand-written models the theorems are about (Model/KernelProofs.v); trusted: the translator, the float64 "
+          "reading (round to nearest even, no overflow/NaN, no fused multiply-add: true on amd64), the text comparison of the statements after a loop (Area64's conversion through the decimal package is "
+          "modelled as float64(a)/2 and compared with the code on every generated input)")
+for _pid in ('C08', 'C13', 'C14', 'C15', 'C16'):
+    PROPS[_pid]['trust'] = list(PROPS[_pid]['trust']) + [_K3KER]
